@@ -24,7 +24,10 @@ AlphabetA == {Tok("number", <<49>>), Tok("number", <<50>>), G(43), G(58), G(95),
 AlphabetB == {Tok("number", <<51>>), Tok("string", <<97, 98>>), Tok("character", <<122>>),
               G(7715), G(7787), G(112), G(99), G(8800), G(71), G(175), G(166), G(43), G(74), G(76), G(44), G(87),
               G(c_lparen), G(c_rparen), G(c_llist), G(c_pipe), G(c_rlist), G(m_v), G(m_tilde), G(c_lambda), G(c_semi), G(8224)}
-Alphabet == IF AlphaSel = "B" THEN AlphabetB ELSE AlphabetA
+(* third alphabet: lazily produced lists -- a map lambda whose body prints, the ways of printing, copying, moving and
+   wrapping the reference (5 / 6 tokens are needed for a copy to be printed after its original) *)
+AlphabetZ == {Tok("number", <<50>>), G(c_lmap), G(44), G(8230), G(c_semi), G(58), G(36), G(119)}
+Alphabet == IF AlphaSel = "B" THEN AlphabetB ELSE IF AlphaSel = "Z" THEN AlphabetZ ELSE AlphabetA
 InputSets == {<<>>, <<VI(3)>>, <<VI(2), VL(<<VI(1), VI(2)>>)>>}
 
 VARIABLES prog, phase, m
@@ -73,4 +76,19 @@ FrameRule ==
          IN SubSeq(Stk(m'), 1, keep) = SubSeq(Stk(m), 1, keep)]_vars
 
 StepsGrow == [][(phase = "run" /\ m'.status = "run") => m'.steps = m.steps + 1]_vars
+
+(* lazily produced lists (DeferredMap): every reference anywhere on a stack names a cell; a copy names an
+   EARLIER cell; a cell is "busy" exactly while an item producing it is on the control stack; a finished run
+   leaves no cell busy; items are produced once -- a cell that is done never changes again *)
+AllRefs(s) == UNION {{ZRefsSeq(s.acts[k].stk)[j] : j \in 1..Len(ZRefsSeq(s.acts[k].stk))} : k \in 1..Len(s.acts)}
+Producing(s) == {s.ctl[k].zid : k \in {j \in 1..Len(s.ctl) : s.ctl[j].k \in {"hof", "hofk"} /\ s.ctl[j].lz}}
+HeapOK == m.status \in {"run", "done"} =>
+    /\ AllRefs(m) \subseteq 1..Len(m.heap)
+    /\ \A k \in 1..Len(m.heap) : m.heap[k].op = "copy" => m.heap[k].src \in 1..(k - 1)
+    /\ \A k \in 1..Len(m.heap) : m.heap[k].state = "busy" => k \in Producing(m)
+    /\ m.status = "done" => \A k \in 1..Len(m.heap) : m.heap[k].state # "busy"
+ProducedOnce ==
+    [][m.status = "run" /\ m'.status \in {"run", "done"} =>
+         /\ Len(m'.heap) >= Len(m.heap)
+         /\ \A k \in 1..Len(m.heap) : m.heap[k].state = "done" => m'.heap[k] = m.heap[k]]_vars
 ====
